@@ -41,3 +41,41 @@ def reaching_defs(cfg: CFG, params) -> Dict[int, FrozenSet[Tuple[str, int]]]:
 
     IN, _ = solve(cfg, init, transfer, edge, join)
     return IN
+
+
+def possibly_unbound(cfg: CFG, fn: ast.AST, params):
+    """(node, name) uses of a local name that is not assigned on every path reaching the use."""
+    from .resolve import assigned_names
+    local = assigned_names(fn) | set(params)
+    init = frozenset(params)
+
+    def transfer(node: Node, state):
+        st = node_stores(node)
+        return frozenset(state | st) if st else state
+
+    def join(node, incoming):
+        it = iter(incoming)
+        out = set(next(it)[2])
+        for _, _, st in it:
+            out &= st
+        return frozenset(out)
+
+    IN, _ = solve(cfg, init, transfer, lambda n, l, s: s, join)
+    out = []
+    for node in cfg.nodes:
+        if node.id not in IN:
+            continue
+        have = IN[node.id]
+        for e in node_exprs(node):
+            comp_bound = set()
+            for sub in ast.walk(e):
+                if isinstance(sub, ast.comprehension):
+                    comp_bound |= {n.id for n in ast.walk(sub.target) if isinstance(n, ast.Name)}
+                if isinstance(sub, ast.Lambda):
+                    comp_bound |= {a.arg for a in sub.args.args}
+            for n in ast.walk(e):
+                if isinstance(n, ast.Name) and isinstance(n.ctx, ast.Load) and n.id in local and n.id not in have and n.id not in comp_bound:
+                    if isinstance(node.ast, ast.AugAssign) and False:
+                        continue
+                    out.append((node, n.id))
+    return out
